@@ -3,5 +3,5 @@ EXTENDS ShaperApi
 (* Histories of ANY length (MC_C18_unbounded.cfg): the log is a history variable - what a call returns depends on the other
    variables only - so states are identified up to the log's last entry (VIEW).  Every appended entry is the last one in the
    state that appends it, where HistoryFree is evaluated; the reachable graph under this view is finite and TLC closes it. *)
-LastOnly == <<callerNs, built, ns, memoThr, memoStages, dupExamples, IF log = <<>> THEN <<>> ELSE <<log[Len(log)]>>>>
+LastOnly == <<callerNs, built, ns, memoThr, memoStages, dupExamples, graph, tracker, profile, IF log = <<>> THEN <<>> ELSE <<log[Len(log)]>>>>
 =============================================================================
